@@ -226,7 +226,7 @@ Proof.
   - apply IH. assumption.
 Qed.
 
-(* any solution of the KKT system the code hands to SimplicialLDLT satisfies the constraints A x = b *)
+(* any solution of the KKT system the code hands to SparseLU (fit_impl.hpp:220) satisfies the constraints A x = b *)
 Theorem kkt_solution_feasible s od dt dx lv rv z :
   (1 <= npts dt dx)%nat ->
   length z = (n_coef s (npts dt dx) + n_eq s (npts dt dx))%nat ->
@@ -241,20 +241,92 @@ Proof.
     unfold n_coef. lia.
 Qed.
 
-(* fit_spline_1d's return value satisfies its constraint system provided the Eigen solver called on this input
-   returned a solution of the system it was given (the solver contract; checked at run time by the harness) *)
-Theorem fit1d_output_feasible s (lu ldlt : list (list Q) -> list Q -> list Q) dt dx lv rv :
+(* the matrix handed to the solver is square of size N_coef + N_eq (fit_impl.hpp:190) and so is the right-hand side
+   (:216-218) *)
+Lemma kkt_H_rows s od dt dx : (1 <= npts dt dx)%nat ->
+  length (kkt_H s od dt dx) = (n_coef s (npts dt dx) + n_eq s (npts dt dx))%nat.
+Proof.
+  intros HN. unfold kkt_H. cbv zeta.
+  rewrite app_length, map_length, length_map2app, length_q_rows, length_mtrans, npts_firstn_dt.
+  unfold A_dense. rewrite map_length, fit1d_row_count by exact HN. unfold n_coef. lia.
+Qed.
+
+(* entry view of the two off-diagonal blocks: exactly the two inserts of fit_impl.hpp:209-210,
+     H(N_coef + r, col) = A(r, col)   and   H(col, N_coef + r) = A(r, col) *)
+Lemma q_rows_width s od ncoef dts : forall i, ((i + length dts) * (Kdeg s + 1) <= ncoef)%nat ->
+  Forall (fun r => length r = ncoef) (q_rows s od i dts ncoef).
+Proof.
+  induction dts as [|dt dts IH]; intros i Hi; [constructor|].
+  cbn [q_rows]. apply Forall_app. split.
+  - apply Forall_forall. intros r Hr. apply in_map_iff in Hr. destruct Hr as [c [<- Hc]].
+    apply length_place. unfold q_block in Hc. apply in_map_iff in Hc. destruct Hc as [ki [<- _]].
+    rewrite map_length, seq_length. unfold blk. cbn [length] in Hi. nia.
+  - apply IH. cbn [length] in Hi. lia.
+Qed.
+Lemma nth_map_lt (A B : Type) (f : A -> B) l : forall k d d', (k < length l)%nat -> nth k (map f l) d' = f (nth k l d).
+Proof. induction l as [|x l IH]; intros [|k] d d' H; cbn [length] in *; try lia; cbn [map nth]; [reflexivity|apply IH; lia]. Qed.
+Lemma nth_map2app X Y : forall k, (k < length X)%nat -> (k < length Y)%nat ->
+  nth k (map2app X Y) [] = nth k X [] ++ nth k Y [].
+Proof.
+  revert Y; induction X as [|r X IH]; intros [|t Y] k HX HY; cbn [length] in *; try lia.
+  destruct k; cbn [map2app nth]; [reflexivity|]. apply IH; lia.
+Qed.
+Theorem kkt_H_blocks s od dt dx r col :
+  (1 <= npts dt dx)%nat -> (r < n_eq s (npts dt dx))%nat -> (col < n_coef s (npts dt dx))%nat ->
+  mget (kkt_H s od dt dx) (n_coef s (npts dt dx) + r) col = mget (A_dense s dt dx) r col
+  /\ mget (kkt_H s od dt dx) col (n_coef s (npts dt dx) + r) = mget (A_dense s dt dx) r col.
+Proof.
+  intros HN Hr Hc. set (N := npts dt dx) in *. set (A := A_dense s dt dx).
+  assert (HlenA : length A = n_eq s N).
+  { unfold A, A_dense. rewrite map_length. apply fit1d_row_count. exact HN. }
+  assert (HwA : Forall (fun row => length row = n_coef s N) A) by (apply fit1d_col_count; exact HN).
+  assert (HlenTop : length (map2app (q_rows s od 0 (firstn N dt) (n_coef s N)) (mtrans (n_coef s N) A)) = n_coef s N).
+  { rewrite length_map2app, length_q_rows, length_mtrans. unfold N at 1. rewrite npts_firstn_dt. fold N. unfold n_coef. lia. }
+  assert (Hrow : length (nth r A []) = n_coef s N).
+  { rewrite Forall_forall in HwA. apply HwA. apply nth_In. lia. }
+  unfold mget, kkt_H. cbv zeta. fold N. fold A. split.
+  - rewrite app_nth2 by lia. rewrite HlenTop.
+    replace (n_coef s N + r - n_coef s N)%nat with r by lia.
+    rewrite (nth_map_lt _ _ _ A r []) by lia. apply app_nth1. lia.
+  - rewrite app_nth1 by lia.
+    rewrite nth_map2app.
+    2:{ rewrite length_q_rows. unfold N at 1. rewrite npts_firstn_dt. fold N. unfold n_coef in *. lia. }
+    2:{ rewrite length_mtrans. exact Hc. }
+    assert (Hq : length (nth col (q_rows s od 0 (firstn N dt) (n_coef s N)) []) = n_coef s N).
+    { pose proof (q_rows_width s od (n_coef s N) (firstn N dt) 0) as Hw.
+      rewrite Forall_forall in Hw. apply Hw.
+      - unfold N at 1. rewrite npts_firstn_dt. fold N. unfold n_coef. lia.
+      - apply nth_In. rewrite length_q_rows. unfold N at 1. rewrite npts_firstn_dt. fold N. unfold n_coef in *. lia. }
+    rewrite app_nth2 by lia. rewrite Hq.
+    replace (n_coef s N + r - n_coef s N)%nat with r by lia.
+    unfold mtrans. rewrite (nth_map_lt _ _ _ (seq 0 (n_coef s N)) col 0%nat) by (rewrite seq_length; exact Hc).
+    rewrite seq_nth by exact Hc. cbn [Nat.add]. unfold mcol.
+    rewrite (nth_map_lt _ _ _ A r []) by lia. reflexivity.
+Qed.
+
+(* MinDerivative<5,3,3>, one interval of 0.5 s: 6 coefficients, 6 equations, a 12 x 12 system; the first constraint
+   row (left first derivative, (-5, 5, 0, ...)) appears both as row 6 and as column 6 of H *)
+Example kkt_H_blocks_ex :
+  length (kkt_H (MinDerivative 5 3 3) 3 [1 # 2] [2]) = 12%nat
+  /\ mget (kkt_H (MinDerivative 5 3 3) 3 [1 # 2] [2]) 6 1 == 5 /\ mget (kkt_H (MinDerivative 5 3 3) 3 [1 # 2] [2]) 1 6 == 5
+  /\ mget (A_dense (MinDerivative 5 3 3) [1 # 2] [2]) 0 1 == 5.
+Proof. repeat split; vm_compute; reflexivity. Qed.
+
+(* fit_spline_1d's return value satisfies its constraint system provided Eigen::SparseLU, called on the system of
+   this input, returned a solution of the system it was given (the solver contract; checked at run time by the
+   harness).  One solver, two call sites: :162-163 on A (interpolating specs) and :220-221 on the KKT matrix. *)
+Theorem fit1d_output_feasible s (lu : list (list Q) -> list Q -> list Q) dt dx lv rv :
   (1 <= npts dt dx)%nat ->
   (OptDeg s = None ->
      Forall2 Qeq (mat_vec (A_dense s dt dx) (lu (A_dense s dt dx) (b_vec s dt dx lv rv))) (b_vec s dt dx lv rv)) ->
   (forall od, OptDeg s = Some od ->
-     let z := ldlt (kkt_H s od dt dx) (kkt_rhs s dt dx lv rv) in
+     let z := lu (kkt_H s od dt dx) (kkt_rhs s dt dx lv rv) in
      length z = (n_coef s (npts dt dx) + n_eq s (npts dt dx))%nat /\
      Forall2 Qeq (mat_vec (kkt_H s od dt dx) z) (kkt_rhs s dt dx lv rv)) ->
-  Forall2 Qeq (mat_vec (A_dense s dt dx) (fit_spline_1d s lu ldlt dt dx lv rv)) (b_vec s dt dx lv rv).
+  Forall2 Qeq (mat_vec (A_dense s dt dx) (fit_spline_1d s lu dt dx lv rv)) (b_vec s dt dx lv rv).
 Proof.
-  intros HN Hlu Hldlt. unfold fit_spline_1d. destruct (OptDeg s) as [od|] eqn:E.
-  - destruct (Hldlt od eq_refl) as [Hlen Hsol]. apply (kkt_solution_feasible s od); assumption.
+  intros HN Hlu Hkkt. unfold fit_spline_1d. destruct (OptDeg s) as [od|] eqn:E.
+  - destruct (Hkkt od eq_refl) as [Hlen Hsol]. apply (kkt_solution_feasible s od); assumption.
   - apply Hlu. reflexivity.
 Qed.
 
